@@ -370,8 +370,14 @@ func (in *Inst) RunTxn(rec *Recorder, aops []abs.AOp) (map[string]interface{}, e
 		ops = append(ops, o)
 	}
 	results, err := in.Transact(ops)
+	commitErr := ""
 	if err != nil {
-		return nil, err
+		// the engine accepted the transaction but applying it failed (or the
+		// server answered with an RPC error): recorded, judged by the trace spec
+		commitErr = err.Error()
+		if results == nil {
+			results = []*ovsdb.OperationResult{}
+		}
 	}
 	ares := []interface{}{}
 	errIdx := 0
@@ -407,8 +413,8 @@ func (in *Inst) RunTxn(rec *Recorder, aops []abs.AOp) (map[string]interface{}, e
 		notifs = append(notifs, map[string]interface{}{"mon": m.ID, "msgs": msgs})
 	}
 	ev := map[string]interface{}{
-		"ev": "txn", "db": in.ID, "ops": aops, "results": ares, "committed": errIdx == 0,
-		"errIdx": errIdx, "errKind": errKind, "post": dump, "refs": refs, "notifs": notifs,
+		"ev": "txn", "db": in.ID, "ops": aops, "results": ares, "committed": errIdx == 0 && commitErr == "",
+		"errIdx": errIdx, "errKind": errKind, "post": dump, "refs": refs, "notifs": notifs, "commitErr": commitErr,
 	}
 	if err := rec.Emit(ev); err != nil {
 		return nil, err
